@@ -214,6 +214,9 @@ func VerifC05(p C05Params) *vsched.Scenario {
 					if p.StopFn == "error" {
 						return errors.New("stop failed")
 					}
+					if p.StopFn == "panic" {
+						panic("seeded panic in the stop routine")
+					}
 					return nil
 				}
 				// dependency D: may only begin stopping once M has completely stopped
@@ -341,7 +344,7 @@ func VerifC05(p C05Params) *vsched.Scenario {
 		retNow := vsched.Now()
 		vsched.Explore(false)
 
-		if (p.StopFn == "error") != (err != nil) {
+		if (p.StopFn == "error" || p.StopFn == "panic") != (err != nil) {
 			verifFail("stop-error-is-returned", p.Trigger, "trigger returned %v with stop routine variant %q", err, p.StopFn)
 		}
 		// (b) the trigger returns only after everything returned
@@ -355,6 +358,10 @@ func VerifC05(p C05Params) *vsched.Scenario {
 		}
 		if s.m.status != StatusOffline {
 			verifFail("module-offline-after-stop", p.Trigger, "module status %s after %s returned", getStatusName(s.m.status), p.Trigger)
+		}
+		// the dependency is stopped as well (it is no longer needed), whatever the dependent's stop routine returned
+		if s.d != nil && s.d.status != StatusOffline {
+			verifFail("dependency-stopped-after-dependent", p.Trigger, "dependency %s has status %s after %s returned (stop routine of %s: %q)", s.d.Name, getStatusName(s.d.status), p.Trigger, s.m.Name, p.StopFn)
 		}
 		// (c) promptness: once everything returned, no waiting out the stop timeout
 		if s.allEnded() && (s.stopEnded || p.StopFn == "none") && retNow-s.lastEnd >= time.Second && retNow-s.cancelNow >= time.Second {
